@@ -81,9 +81,10 @@ def piece(x, defs, tm, root):
                  V.VNil)
 
 
-flat = z3.RecFunction("fragments_on_subtype_flat", V.VL, V.Val, V.Val, V.Val, V.VL)
-_l, _d, _t, _r = z3.Const("fos_l", V.VL), z3.Const("fos_d", V.Val), z3.Const("fos_t", V.Val), z3.Const("fos_r", V.Val)
-z3.RecAddDefinition(flat, [_l, _d, _t, _r], z3.If(V.is_VNil(_l), V.VNil, V.vl_concat(piece(V.hd(_l), _d, _t, _r), flat(V.tl(_l), _d, _t, _r))))
+# the flat-map over the selection list is a *declared* function constrained by instances of its defining equations
+# (flat(nil) = nil, flat(x :: l) = piece(x) ++ flat(l)) - as in c01_resolve: the recursive definition made the solver unfold a
+# large body and one verdict depended on the load of the machine
+flat = z3.Function("fragments_on_subtype_flat", V.VL, V.Val, V.Val, V.Val, V.VL)
 
 SCHEMA_TYPE = OneOf(Cls(G.GraphQLObjectType, name=GQ.NAME), Cls(G.GraphQLInterfaceType, name=GQ.NAME), Cls(G.GraphQLUnionType, name=GQ.NAME),
                     Cls(G.GraphQLScalarType, name=GQ.NAME), Cls(G.GraphQLEnumType, name=GQ.NAME))
@@ -133,6 +134,7 @@ class GetFragmentsOnSubtype(Contract):
                 V.LEMMAS.append(V.vl_concat(V.VNil, t) == t)
                 V.LEMMAS.append(V.vl_concat(V.VCons(fd, V.VNil), t) == V.VCons(fd, t))
             if z3.is_app(rs) and rs.decl().name() == "VNil":
+                V.LEMMAS.append(flat(V.VNil, defs, tm, root) == V.VNil)                                         # defining equation at nil
                 return cur == flat(xs, defs, tm, root)
             return V.vl_concat(cur, flat(rest, defs, tm, root)) == flat(xs, defs, tm, root)
         return {"get_fragments_on_subtype": inv}
